@@ -218,7 +218,7 @@ func verdictOf(f func() error) (v string) {
 	return "ok"
 }
 
-var loadedSchema *schema.Schema
+var loadedSchema, lenientSchema *schema.Schema
 var validatorHung bool
 
 func (schemaStream) Execute(c Case) {
@@ -271,6 +271,17 @@ func (schemaStream) Execute(c Case) {
 		pj, py := filepath.Join(schemaRoot, "doc.json"), filepath.Join(schemaRoot, "doc.yaml")
 		_ = os.WriteFile(pj, jsonText, 0o644)
 		_ = os.WriteFile(py, yamlText, 0o644)
+		// a lenient schema loaded from a file sees the same bytes first: what it thinks of them must not colour
+		// what the other schemas say
+		if lenientSchema == nil {
+			lp := filepath.Join(os.TempDir(), "cdi-verif-schema-copy", "lenient.json")
+			_ = os.MkdirAll(filepath.Dir(lp), 0o755)
+			_ = os.WriteFile(lp, []byte(`{"$schema": "http://json-schema.org/draft-07/schema#", "type": "object"}`), 0o644)
+			lenientSchema, _ = schema.Load(lp)
+		}
+		if lenientSchema != nil {
+			_, _ = verdictOf(func() error { return lenientSchema.ValidateData(jsonText) }), verdictOf(func() error { return lenientSchema.ValidateData(yamlText) })
+		}
 		none, _ := schema.Load("none")
 		choices := map[string]*schema.Schema{"builtin": schema.BuiltinSchema(), "loaded": loadedSchema, "none": none, "nil": nil}
 		for name, s := range choices {
@@ -387,6 +398,16 @@ func (schemaStream) Execute(c Case) {
 				cdi.SetSpecValidator(b)
 				obs["readWithValidator"] = verdictOf(func() error { _, err := cdi.ReadSpec(filepath.Join(dir, "out.yaml"), 0); return err })
 				obs["writeWithValidator"] = verdictOf(func() error { return cache.WriteSpec(s, "again.json") })
+				// a Spec object that is refused while incomplete (no devices yet), completed in place and written again:
+				// the verdict is that of the completed Spec
+				inc := *s
+				inc.Devices = nil
+				first := verdictOf(func() error { return cache.WriteSpec(&inc, "inplace.json") })
+				inc.Devices = s.Devices
+				if again := verdictOf(func() error { return cache.WriteSpec(&inc, "inplace.json") }); again != obs["writeWithValidator"] {
+					aux = append(aux, fmt.Sprintf("a Spec refused while incomplete (%s) and completed in place is then %s, the same Spec written directly %v", first, again, obs["writeWithValidator"]))
+					obs["aux"] = aux
+				}
 				cdi.SetSpecValidator(nil)
 			}()
 			select {
